@@ -49,6 +49,8 @@ def build(rules, strict, merge, redirect_defaults, sort_parameters=False, late=0
             kw["defaults"] = dict(r["defaults"])
         if r.get("alias"):
             kw["alias"] = True
+        if getattr(build, "subdomain", None):
+            kw["subdomain"] = build.subdomain  # the rules live on the subdomain the adapter is bound to (the map's default one is "")
         if r.get("ws"):
             kw["websocket"] = True
             rl.append(Rule(R.rule_str(r), endpoint=r["ep"], **kw))
@@ -119,6 +121,9 @@ def check_map(rec, rng, rules, strict, merge, rd, script, scheme, sub):
     from werkzeug.routing.exceptions import RequestRedirect
 
     sortp = rng.random() < 0.3
+    build.subdomain = sub
+    if sub:
+        rec.observe("maps_on_a_subdomain")
     ws = scheme in ("ws", "wss")
     # the rules of the adapter's own kind (websocket rules for ws/wss, HTTP rules otherwise) plus, in a third of the maps,
     # some rules of the other kind: those can never answer this adapter, so nothing may redirect towards them
@@ -400,6 +405,7 @@ def late_rule_histories(rec, rng, n):
     """History: a map that has already answered requests gets further rules of the same endpoint (Map.add): from
     then on it redirects exactly like a map that had all the rules from the start - in particular straight to the
     canonical URL, not through an intermediate one."""
+    build.subdomain = None
     from werkzeug.exceptions import HTTPException
     from werkzeug.routing import Map, Rule
     from werkzeug.routing.exceptions import RequestRedirect
